@@ -100,7 +100,12 @@ class RedisStorage(QueueStorage):
                 return id
 
     def set_timestamp(self, id, timestamp):
-        self.redis.hset(self._get_key(id), 'timestamp', timestamp)
+        key = self._get_key(id)
+        if self.redis.hset(key, 'timestamp', timestamp) == 1:
+            # The field was created, not updated: the message is not (or no
+            # longer) there. Do not leave a record behind that load() lists.
+            self.redis.delete(key)
+            return
         log.update_meta(id, timestamp=timestamp)
 
     def increment_attempts(self, id):
